@@ -76,16 +76,22 @@ struct Scn {
         }
     }
 
-    // blocking lock, spelled as the round asks; `in_coro`: the caller is an ordinary function running inside a coroutine.
-    // The stack is padded by the round number: the sync_awaiter of every round of a contender has an address of its own
-    // (a stale expected value of another contender's publishing CAS cannot meet it; the model's `keyOf`).
-    void blocking_lock(mutex_t::ownership *o, const std::string &rd, bool in_coro, int r) {
-        volatile char *pad = static_cast<volatile char *>(alloca(4096 * (r + 1)));
-        pad[0] = 0;
+    // blocking lock, spelled as the round asks; `in_coro`: the caller is an ordinary function running inside a coroutine
+    __attribute__((noinline)) void do_blocking_lock(mutex_t::ownership *o, const std::string &rd, bool in_coro) {
         bool legal_wait = !in_coro || mx._requests.raw() == nullptr;   // wait() asserts in a coroutine unless there is nothing to wait for
         if (has_opt(rd, 'f') || !legal_wait) *o = mx.lock().force_wait();
         else if (has_opt(rd, 'o')) { mutex_t::ownership own(mx.lock()); *o = std::move(own); }
         else *o = mx.lock().wait();
+    }
+    // The stack is padded by the round number before the (not inlined) function that contains the library's sync_awaiter is
+    // called: the sync_awaiter of every round of a contender has an address of its own (a stale expected value of another
+    // contender's publishing CAS cannot meet it; the model's `keyOf`). The unit is larger than any difference of call depth
+    // between two rounds (a coroutine is resumed from different places).
+    void blocking_lock(mutex_t::ownership *o, const std::string &rd, bool in_coro, int r) {
+        volatile char *pad = static_cast<volatile char *>(alloca(256 * 1024 * (r + 1)));
+        pad[0] = 0;
+        do_blocking_lock(o, rd, in_coro);
+        pad[1] = 0;
     }
 
     async<void> coro_contender(int a, std::vector<std::string> rounds) {
